@@ -134,7 +134,7 @@ def _run_part(P, part, tier, seed, rng, coq, agg):
             return any(m.split(":")[0] == msg.split(":")[0] for m in part.monitor(ls, o))
         small = shrink(part, by_id[cid], still)
         o = _one(C.KDB_RUN, fam, small, pid + "_s", env)
-        rp = C.write_replay(pid, "v%d" % violations, {
+        rp = C.write_replay(pid, "f%d_v%d" % (fam, violations), {
             "property": pid, "kind": "monitor", "family": fam, "case": small,
             "readable": part.pretty(small), "impl_trace": o,
             "model_trace": _one(C.MODEL_RUN, fam, small, pid + "_s"),
@@ -163,12 +163,12 @@ def _run_part(P, part, tier, seed, rng, coq, agg):
                     break
         if found:
             nb, o, ms = found
-            rp = C.write_replay(pid, "v%d" % violations, {
+            rp = C.write_replay(pid, "f%d_v%d" % (fam, violations), {
                 "property": pid, "kind": "monitor", "family": fam, "case": nb,
                 "readable": part.pretty(nb), "impl_trace": o, "failed_clause": ms})
             print("VIOLATION property=%s replay=%s" % (pid, rp))
         else:
-            rp = C.write_replay(pid, "k%d" % violations, {
+            rp = C.write_replay(pid, "f%d_k%d" % (fam, violations), {
                 "property": pid, "kind": "correspondence", "family": fam, "case": small,
                 "readable": part.pretty(small),
                 "broken": "K(%s): model and implementation differ on this case (%d of %d cases differ); "
